@@ -384,8 +384,16 @@ func (h *History) Replay(k int) []Op {
 				out = append(out, Op{Code: OpUsed, Obj: o.Obj, Arg: -1})
 			}
 		case h.Objs[o.Obj].Kind == KDoc:
+			// Check() and Len() of a document are cursor-neutral (they scan a
+			// rewound copy of the cursor and leave it where a fresh document
+			// has it); only NextLexeme (and Validate, after which the
+			// generator issues no cursor-dependent operation) advances it.
+			// So only the earlier NextLexeme calls are replayed.  (The
+			// generator issues the FIRST Check / Len of a document object only
+			// while it has not been advanced: on the unchanged tree the first
+			// Check/Len rewinds to the start, later ones are cached.)
 			cursorOp := (target.Code == OpNext && target.Obj == o.Obj) || (target.Code == OpValidate && target.Arg == o.Obj)
-			if cursorOp {
+			if cursorOp && o.Code == OpNext {
 				out = append(out, o)
 			}
 		}
@@ -447,6 +455,7 @@ var docFit = map[string][]int{
 	"r_plain": {0, 1}, "r_rules": {0, 1, 10}, "r_types": {0, 1}, "r_rx": {13, 1}, "r_rxroot": {3}, "r_enum": {0, 10}, "r_enum2": {0, 10},
 	"r_rec": {4}, "r_self": {4}, "r_or": {12, 0}, "r_allof": {8}, "r_allof2": {8}, "r_uset": {9, 8}, "r_uset2": {9, 8}, "r_keys": {0, 10},
 	"r_twokeys": {0, 10, 1}, "r_addl": {10, 0}, "r_req": {11, 0}, "t_node": {4}, "t_allof": {8}, "t_or": {12},
+	"r_idflag": {18, 19, 20, 21}, "r_ownor": {22, 23},
 }
 
 type gen struct {
@@ -457,6 +466,10 @@ type gen struct {
 	pending   map[int][]Op // setup queue per schema object
 	added     map[int]bool // type object has been added to something
 	spent     map[int]bool // document was handed to Validate
+	advanced  map[int]bool // document: NextLexeme was called
+	checked   map[int]bool // document: Check was called (result cached, no more rewinding)
+	lened     map[int]bool // document: Len was called
+	maxOps    int
 	count     int
 }
 
@@ -533,7 +546,47 @@ func (g *gen) emit(op Op) {
 	if op.Code == OpValidate {
 		g.spent[op.Arg] = true
 	}
+	if g.h.Objs[op.Obj].Kind == KDoc {
+		switch op.Code {
+		case OpNext:
+			g.advanced[op.Obj] = true
+		case OpCheck:
+			g.checked[op.Obj] = true
+		case OpLen:
+			g.lened[op.Obj] = true
+		}
+	}
 }
+
+// docOpOK: may Check / Len be issued on document d now?  The first Check and
+// the first Len only while the cursor is at the start (or after the document
+// was spent by Validate: no cursor-dependent operation follows then).
+func (g *gen) docOpOK(d int, code OpCode) bool {
+	switch code {
+	case OpCheck:
+		return g.checked[d] || !g.advanced[d] || g.spent[d]
+	case OpLen:
+		return g.lened[d] || !g.advanced[d] || g.spent[d]
+	case OpNext:
+		return !g.spent[d]
+	}
+	return true
+}
+
+// malformed documents and documents with trailing non-space bytes
+func malformedDocs() []int {
+	var out []int
+	for i := range Docs {
+		w := NewWorld(&History{Objs: []Obj{{KDoc, i}}})
+		w.create(0)
+		if r, _ := w.Exec(Op{Code: OpCheck, Obj: 0, Arg: -1}); r != "ok" {
+			out = append(out, i)
+		}
+	}
+	return out
+}
+
+var badDocs = malformedDocs()
 
 func (g *gen) emitPending(i int) {
 	q := g.pending[i]
@@ -572,18 +625,37 @@ func (g *gen) directUseOK(i int) bool {
 func (g *gen) docFor(schemaObj int) int {
 	id := Schemas[g.h.Objs[schemaObj].Spec].ID
 	spec := g.r.Intn(len(Docs))
-	if fit := docFit[id]; len(fit) > 0 && g.r.Intn(10) < 6 {
+	switch x := g.r.Intn(10); {
+	case x < 5 && len(docFit[id]) > 0:
+		fit := docFit[id]
 		spec = fit[g.r.Intn(len(fit))]
+	case x < 7:
+		spec = badDocs[g.r.Intn(len(badDocs))]
 	}
+	d := -1
 	// reuse an unspent document object sometimes (it may have been read partly)
-	if g.r.Intn(10) < 3 {
-		for _, d := range g.find(KDoc, spec) {
-			if !g.spent[d] {
-				return d
+	if g.r.Intn(10) < 4 {
+		var cands []int
+		for i, o := range g.h.Objs {
+			if o.Kind == KDoc && !g.spent[i] && (o.Spec == spec || g.r.Intn(2) == 0) {
+				cands = append(cands, i)
 			}
 		}
+		if len(cands) > 0 {
+			d = cands[g.r.Intn(len(cands))]
+		}
 	}
-	return g.newObj(KDoc, spec)
+	if d < 0 {
+		d = g.newObj(KDoc, spec)
+	}
+	// Check()/Len() the document before it is validated (a common calling pattern)
+	if g.count < g.maxOps-1 && g.r.Intn(10) < 4 {
+		code := []OpCode{OpCheck, OpCheck, OpCheck, OpLen}[g.r.Intn(4)]
+		if g.docOpOK(d, code) {
+			g.emit(Op{Code: code, Obj: d, Arg: -1})
+		}
+	}
+	return d
 }
 
 func (g *gen) observeSchema(i int) {
@@ -625,7 +697,8 @@ func (g *gen) observeSchema(i int) {
 // counted) over 1..3 root schemas, their types and rules, documents, and
 // stand-alone enum / regex objects.
 func Generate(r *rand.Rand, withKnown bool) *History {
-	g := &gen{r: r, h: &History{}, withKnown: withKnown, pending: map[int][]Op{}, added: map[int]bool{}, spent: map[int]bool{}}
+	g := &gen{r: r, h: &History{}, withKnown: withKnown, pending: map[int][]Op{}, added: map[int]bool{}, spent: map[int]bool{},
+		advanced: map[int]bool{}, checked: map[int]bool{}, lened: map[int]bool{}}
 	roots := Roots()
 	nRoots := []int{1, 1, 1, 2, 2, 2, 2, 3, 3}[r.Intn(9)]
 	var rootObjs []int
@@ -663,6 +736,7 @@ func Generate(r *rand.Rand, withKnown bool) *History {
 		g.newObj(KRegex, r.Intn(len(Regexes)))
 	}
 	maxOps := 4 + r.Intn(9)
+	g.maxOps = maxOps
 	pSetup := 0.8
 	if r.Intn(3) == 0 {
 		pSetup = 0.4
@@ -705,13 +779,23 @@ func Generate(r *rand.Rand, withKnown bool) *History {
 			if len(ds) > 0 && r.Intn(3) > 0 {
 				d = ds[r.Intn(len(ds))]
 			} else {
-				d = g.newObj(KDoc, r.Intn(len(Docs)))
+				spec := r.Intn(len(Docs))
+				if r.Intn(3) == 0 {
+					spec = badDocs[r.Intn(len(badDocs))]
+				}
+				d = g.newObj(KDoc, spec)
 			}
-			code := []OpCode{OpCheck, OpLen, OpNext, OpNext, OpNext}[r.Intn(5)]
-			if g.spent[d] && code == OpNext {
-				code = OpCheck
+			code := []OpCode{OpCheck, OpCheck, OpLen, OpNext, OpNext, OpNext}[r.Intn(6)]
+			if !g.docOpOK(d, code) {
+				if code == OpNext {
+					code = OpCheck
+				} else {
+					code = OpNext
+				}
 			}
-			g.emit(Op{Code: code, Obj: d, Arg: -1})
+			if g.docOpOK(d, code) {
+				g.emit(Op{Code: code, Obj: d, Arg: -1})
+			}
 		case x < 90:
 			es := g.pick(KEnum)
 			var e int
